@@ -393,7 +393,7 @@ func TestC18(t *testing.T) {
 
 	// 2. random single keys
 	kg := newKeygen(run.Rand("keys"))
-	for i, n := 0, run.N(20000, 1000000); i < n; i++ {
+	for i, n := 0, run.N(100000, 3000000); i < n; i++ {
 		k := kg.randomKey(1024)
 		checkSingle(singles[i%len(singles)], k)
 		if i == 0 {
@@ -439,7 +439,7 @@ func TestC18(t *testing.T) {
 	}
 
 	rng := run.Rand("multi")
-	for i, n := 0, run.N(40000, 2000000); i < n; i++ {
+	for i, n := 0, run.N(200000, 6000000); i < n; i++ {
 		m := multis[i%len(multis)]
 		nk := m.min
 		if !m.fixed {
@@ -471,7 +471,7 @@ func TestC18(t *testing.T) {
 	filler := func() string {
 		return []string{"{f}", "v", "}{", "{}", "0"}[rng.Intn(5)]
 	}
-	rounds := run.N(12, 400)
+	rounds := run.N(60, 1500)
 	for r := 0; r < rounds; r++ {
 		for ci := range chains {
 			c := &chains[ci]
